@@ -27,6 +27,8 @@ pub enum WOp {
     DeleteLink { row: u16 },
     /// room mutation: the admin adds a user entry
     RoomChange,
+    /// one mutation holding a room change followed by a tree of data rows (written as a room mutation)
+    RoomChangeWithTree,
     /// the instance pulls the feeder's rows (synchronised batches)
     Ingest,
     Recompute,
@@ -69,6 +71,7 @@ fn strategy(max_ops: usize, faults: usize) -> BoxedStrategy<Case> {
         2 => any::<u16>().prop_map(|row| WOp::DeleteNode { row }),
         1 => any::<u16>().prop_map(|row| WOp::DeleteLink { row }),
         1 => Just(WOp::RoomChange),
+        1 => Just(WOp::RoomChangeWithTree),
         1 => Just(WOp::Ingest),
         1 => Just(WOp::Recompute),
     ];
@@ -246,6 +249,37 @@ fn child_main(spec_path: &str) -> ! {
                     match a.mutate("mutate { sys.Room { id:$room authorisations:[{ id:$g users:[{verif_key:$k}] }] } }", Some(p)).await {
                         Ok(_) => say(format!("ACK {} ok roomchange", i)),
                         Err(e) => say(format!("ACK {} err roomchange {}", i, e.replace('\n', " "))),
+                    }
+                }
+                WOp::RoomChangeWithTree => {
+                    let k = b64(&{
+                        use dvv::security::SigningKey;
+                        signing_key_for_secret(&secret_for(&format!("paper{}", i))).export_verifying_key()
+                    });
+                    let tag = format!("op{}x0", i);
+                    say(format!("SUBMIT {} tree {}", i, tag));
+                    let mut p = Parameters::new();
+                    p.add("room", room.clone()).unwrap();
+                    p.add("rid", room.clone()).unwrap();
+                    p.add("g", auth.clone()).unwrap();
+                    p.add("k", k).unwrap();
+                    p.add("a", format!("{}-a", tag)).unwrap();
+                    p.add("b", format!("{}-b", tag)).unwrap();
+                    p.add("c", format!("{}-c", tag)).unwrap();
+                    match a
+                        .mutate(
+                            "mutate { sys.Room { id:$rid authorisations:[{ id:$g users:[{verif_key:$k}] }] } app.Item { room_id:$room name:$a parent:{ name:$b } links:[{ name:$c }] } }",
+                            Some(p),
+                        )
+                        .await
+                    {
+                        Ok(js) => {
+                            let v: serde_json::Value = serde_json::from_str(&js).unwrap();
+                            let id = v["app.Item"]["id"].as_str().unwrap().to_string();
+                            rows.push(id.clone());
+                            say(format!("ACK {} ok tree {} {}", i, tag, id));
+                        }
+                        Err(e) => say(format!("ACK {} err tree {} {}", i, tag, e.replace('\n', " "))),
                     }
                 }
                 WOp::Ingest => {
